@@ -351,6 +351,208 @@ func (o verifC41Out) add(l string) {
 	o.emit(l)
 }
 
+
+// ---------------------------------------------------------------------------------------------
+// Multi-node part: K real running Nodes on an in-process control bus.  PublishControl(data, nodeID, _)
+// delivers to nodeID only, or to every node when nodeID is empty (the Controller contract).  Nodes
+// learn about each other through their own node-info commands.  Survey handlers on every node keep
+// the callback; `breply r t code` makes node r answer survey t (through the real handleSurveyRequest
+// callback, i.e. the real addressing of the response).
+//
+//   bus K | bsurvey n timeoutMS | breply r t code | btick MS
+//   -> r=… b0=<issuer>/<id>/<state>/<results as responder:code> …
+
+type verifC41BusSurvey struct {
+	issuer int
+	id     uint64
+	done   bool
+	res    map[string]SurveyResult
+	err    error
+	cbs    map[int]SurveyCallback
+}
+
+type verifC41Bus struct {
+	mu    sync.Mutex
+	nodes []*Node
+	svs   []*verifC41BusSurvey
+}
+
+type verifC41BusController struct {
+	b *verifC41Bus
+}
+
+func (c *verifC41BusController) RegisterControlEventHandler(ControlEventHandler) error { return nil }
+
+func (c *verifC41BusController) PublishControl(data []byte, nodeID, _ string) error {
+	c.b.mu.Lock()
+	nodes := append([]*Node(nil), c.b.nodes...)
+	c.b.mu.Unlock()
+	for _, n := range nodes {
+		if nodeID == "" || nodeID == n.ID() {
+			_ = n.HandleControl(data)
+		}
+	}
+	return nil
+}
+
+func (b *verifC41Bus) idx(uid string) string {
+	for i, n := range b.nodes {
+		if n.ID() == uid {
+			return strconv.Itoa(i)
+		}
+	}
+	return "?"
+}
+
+func (b *verifC41Bus) obs(r string) string {
+	synctest.Wait()
+	b.mu.Lock()
+	defer b.mu.Unlock()
+	parts := []string{"r=" + r}
+	for t, sv := range b.svs {
+		state, res := "run", "-"
+		if sv.done {
+			switch {
+			case sv.err == nil:
+				state = "ok"
+			case errors.Is(sv.err, context.DeadlineExceeded):
+				state = "deadline"
+			default:
+				state = "err"
+			}
+			var xs []string
+			for u, r := range sv.res {
+				xs = append(xs, b.idx(u)+":"+strconv.Itoa(int(r.Code)))
+			}
+			sort.Strings(xs)
+			if len(xs) > 0 {
+				res = strings.Join(xs, ",")
+			}
+		}
+		parts = append(parts, fmt.Sprintf("b%d=%d/%d/%s/%s", t, sv.issuer, sv.id, state, res))
+	}
+	return strings.Join(parts, " ")
+}
+
+func (b *verifC41Bus) op(ws []string) string {
+	switch ws[0] {
+	case "bsurvey":
+		if len(ws) != 3 {
+			return "bad-op"
+		}
+		ni, _ := strconv.Atoi(ws[1])
+		ms, _ := strconv.Atoi(ws[2])
+		if ni < 0 || ni >= len(b.nodes) {
+			return "bad-op"
+		}
+		n := b.nodes[ni]
+		sv := &verifC41BusSurvey{issuer: ni, cbs: map[int]SurveyCallback{}}
+		b.mu.Lock()
+		t := len(b.svs)
+		b.svs = append(b.svs, sv)
+		n.surveyMu.RLock()
+		sv.id = n.surveyID + 1
+		n.surveyMu.RUnlock()
+		b.mu.Unlock()
+		go func() {
+			ctx, cancel := context.WithTimeout(context.Background(), time.Duration(ms)*time.Millisecond)
+			defer cancel()
+			res, err := n.Survey(ctx, "verif", []byte(strconv.Itoa(t)), "")
+			b.mu.Lock()
+			sv.res, sv.err, sv.done = res, err, true
+			b.mu.Unlock()
+		}()
+		return b.obs("-")
+	case "breply":
+		if len(ws) != 4 {
+			return "bad-op"
+		}
+		r, _ := strconv.Atoi(ws[1])
+		t, _ := strconv.Atoi(ws[2])
+		code, _ := strconv.Atoi(ws[3])
+		b.mu.Lock()
+		var cb SurveyCallback
+		if t >= 0 && t < len(b.svs) {
+			cb = b.svs[t].cbs[r]
+			delete(b.svs[t].cbs, r)
+		}
+		b.mu.Unlock()
+		if cb == nil {
+			return b.obs("nocb")
+		}
+		done := make(chan struct{})
+		go func() { cb(SurveyReply{Code: uint32(code)}); close(done) }()
+		synctest.Wait()
+		select {
+		case <-done:
+			return b.obs("-")
+		default:
+			return b.obs("BLOCKED")
+		}
+	case "btick":
+		ms, _ := strconv.Atoi(ws[1])
+		time.Sleep(time.Duration(ms) * time.Millisecond)
+		return b.obs("-")
+	}
+	return "bad-op"
+}
+
+func verifC41BusScenario(t *testing.T, lines []string, emit func(string)) {
+	cnt := 0
+	out := verifC41Out{emit: emit, n: &cnt}
+	defer func() {
+		if r := recover(); r != nil {
+			for cnt < len(lines) {
+				out.add(fmt.Sprintf("PANIC %v", r))
+			}
+		}
+	}()
+	synctest.Test(t, func(t *testing.T) {
+		ws := strings.Fields(lines[0])
+		k, _ := strconv.Atoi(ws[1])
+		b := &verifC41Bus{}
+		for i := 0; i < k; i++ {
+			n, err := New(Config{LogLevel: LogLevelNone})
+			if err != nil {
+				panic(err)
+			}
+			n.SetController(&verifC41BusController{b: b})
+			ni := i
+			n.OnSurvey(func(ev SurveyEvent, cb SurveyCallback) {
+				t, _ := strconv.Atoi(string(ev.Data))
+				b.mu.Lock()
+				if t < len(b.svs) {
+					b.svs[t].cbs[ni] = cb
+				}
+				b.mu.Unlock()
+			})
+			b.mu.Lock()
+			b.nodes = append(b.nodes, n)
+			b.mu.Unlock()
+		}
+		for _, n := range b.nodes {
+			if err := n.Run(); err != nil {
+				panic(err)
+			}
+		}
+		synctest.Wait()
+		sizes := ""
+		for _, n := range b.nodes {
+			sizes += strconv.Itoa(n.nodes.size())
+		}
+		out.add(b.obs("nodes" + sizes))
+		for _, l := range lines[1:] {
+			out.add(b.op(strings.Fields(l)))
+		}
+		time.Sleep(30 * time.Second)
+		synctest.Wait()
+		for _, n := range b.nodes {
+			_ = n.Shutdown(context.Background())
+		}
+		synctest.Wait()
+	})
+}
+
 func TestVerifC41(t *testing.T) {
 	in, err := os.Open(os.Getenv("VERIF_OPS"))
 	if err != nil {
@@ -398,12 +600,16 @@ func TestVerifC41(t *testing.T) {
 	}
 	for i := 0; i < len(lines); {
 		ws := strings.Fields(lines[i])
-		if len(ws) == 2 && ws[0] == "reset" {
+		if len(ws) == 2 && (ws[0] == "reset" || ws[0] == "bus") {
 			j := i + 1
-			for j < len(lines) && !strings.HasPrefix(lines[j], "reset") {
+			for j < len(lines) && !strings.HasPrefix(lines[j], "reset") && !strings.HasPrefix(lines[j], "bus ") {
 				j++
 			}
-			verifC41Scenario(t, lines[i:j], emit)
+			if ws[0] == "bus" {
+				verifC41BusScenario(t, lines[i:j], emit)
+			} else {
+				verifC41Scenario(t, lines[i:j], emit)
+			}
 			i = j
 		} else {
 			fmt.Fprintln(w, "bad-op")
